@@ -186,6 +186,24 @@ def new_ctx(si):
     return cc.QueueingCounterContext() if si else cc.QueueingCounterContext(sorted_input=False)
 
 
+def spec_loglevel(spec):
+    """the log level (-D 0..4) in force while a stream is driven: a fixed function of the stream, so that a replay uses
+    the same one.  The level changes what is printed (swallowed here), never what the stage returns."""
+    return (len(spec) + sum(int(x["ts"]) for x in spec if isinstance(x.get("ts"), (int, float))
+                            and abs(x["ts"]) < 1e15)) % 5
+
+
+@contextlib.contextmanager
+def at_loglevel(ll):
+    import aiu_trace_analyzer.logger as aiulog
+    old = aiulog.loglevel
+    aiulog.loglevel = ll
+    try:
+        yield
+    finally:
+        aiulog.loglevel = old
+
+
 def run_stage_impl(si, keep, spec):
     """the real queueing_counter on a fresh QueueingCounterContext: [[outputs per event], drain outputs]"""
     import aiu_trace_analyzer.pipeline.cmpt_collection as cc
@@ -194,7 +212,7 @@ def run_stage_impl(si, keep, spec):
     snaps = [copy.deepcopy(e) for e in evs]
     ids = {id(e): i for i, e in enumerate(evs)}
     try:
-        with quiet():
+        with quiet(), at_loglevel(spec_loglevel(spec)):
             ctx = new_ctx(si)
             per = []
             for e in evs:
@@ -208,7 +226,7 @@ def run_stage_impl(si, keep, spec):
 
 def run_uq_impl(si, s, e, q):
     try:
-        with quiet():
+        with quiet(), at_loglevel((len(q) + int(s)) % 5):
             ctx = new_ctx(si)
             ctx.queues[0] = [tuple(x) for x in q]
             rd, nq = ctx.update_queues(s, e, 0)
@@ -306,7 +324,8 @@ def run_e2e_impl(sc, keep, work):
         event_pipe.queueing_counter = queueing_counter
         event_pipe.QueueingCounterContext = RecCtx
         with quiet():
-            argv = (["-i", ",".join(files), "-o", outp, "--freq", str(int(FREQ))] + (["--keep_prep"] if keep else [])
+            argv = (["-i", ",".join(files), "-o", outp, "--freq", str(int(FREQ)), "-D", str(sc.get("dlevel", 1))]
+                    + (["--keep_prep"] if keep else [])
                     + list(sc.get("opts", [])))
             rc = Acelyzer(argv).run()
         if rc != 0:
@@ -354,7 +373,8 @@ def run_cli(sc, keep, work):
     files = scenario_files(sc, d)
     outp = os.path.join(d, "out.json")
     env = dict(os.environ, PYTHONPATH=os.path.join(REPO, "src"), PYTHONHASHSEED="0")
-    r = subprocess.run([PY, "-m", "acelyzer.acelyzer", "-i", ",".join(files), "-o", outp, "--freq", str(int(FREQ))]
+    r = subprocess.run([PY, "-m", "acelyzer.acelyzer", "-i", ",".join(files), "-o", outp, "--freq", str(int(FREQ)),
+                        "-D", str(sc.get("dlevel", 1))]
                        + (["--keep_prep"] if keep else []) + list(sc.get("opts", [])), cwd=d, env=env,
                        stdout=subprocess.PIPE,
                        stderr=subprocess.STDOUT, text=True, timeout=120)
@@ -682,6 +702,8 @@ def gen_scenario(r, small=False):
         # -M / --no_mp_sync: the clock-alignment stage (and its sort by ts) is not registered; the records of a file
         # reach the prep-queue counter in file order, which is shuffled above
         sc["opts"] = ["-M"]
+    # -D: what is printed may depend on the level, the exported counter may not
+    sc["dlevel"] = r.choice([0, 1, 1, 2, 3, 4])
     return sc
 
 
@@ -782,7 +804,7 @@ def stage_fail(si, keep, spec, out):
     bad = oracle_stage(keep, spec, out)
     if not bad:
         return None
-    f = fail_rec("stage", {"sorted_input": si, "keep_prep": keep, "events": spec}, bad,
+    f = fail_rec("stage", {"sorted_input": si, "keep_prep": keep, "events": spec, "loglevel": spec_loglevel(spec)}, bad,
                  "per pid: samples strictly increasing in time, value = #{Prep: start <= t < end}, sample at every "
                  "change, last sample 0; Prep slices passed on iff keep_prep; everything else passed on unchanged",
                  {"symptoms": [[k, fa] for k, fa in bad][:4],
@@ -821,7 +843,7 @@ def e2e_fail(sc, keep, res):
         return None
     preps, samples = export_views(res["export"] or [])
     return fail_rec("e2e", {"keep_prep": keep, "scenario": sc,
-                            "argv": ["-i", "<rank files>", "-o", "out.json", "--freq", "1024"]
+                            "argv": ["-i", "<rank files>", "-o", "out.json", "--freq", "1024", "-D", str(sc.get("dlevel", 1))]
                             + (["--keep_prep"] if keep else []) + list(sc.get("opts", []))}, bad,
                     "exported ConcurrentPreps series per rank equals the number of in-flight Prep slices; Prep slices "
                     "exported iff --keep_prep",
